@@ -6,10 +6,35 @@ A competing rule randomises, separately per group, over the group's tradeoff poi
 of `rawPoints flip xm ym rows`).  By `C04.sweep_point_sound` and `metric_affine` the expected (x, y) metric pair of
 such a rule is (`Mixture.x`, `Mixture.y`).  All theorems hold for every dataset, any number of groups, every
 constraint / objective / flip / grid size N ≥ 1.  The arg-max is the exact one (`np.around(.,15)` and IEEE rounding
-of the implementation are outside the model; the harness accepts arg-max ties within 1e-8).
+of the implementation are outside the model; the harness accepts arg-max ties within 1e-12).
+-/
+/-
+CLAUSE → THEOREM TABLE (review R1-B; property text in properties.jsonl, id C05)
+
+| clause of the property text                                               | theorem(s)                                                       |
+|---------------------------------------------------------------------------|------------------------------------------------------------------|
+| "all rules that randomise, separately per group, over thresholdings of the  | OpMix / OpMix.Valid flip (finite mixtures of ARBITRARY threshold |
+|  scores (and flipped thresholdings when flip=True)"                        | operations); sweep_complete, randomised_rule_is_mixture           |
+| "... that give every group the same value x of the constrained metric for   | hypothesis hms of optimal_simple_ops / optimal_EO_ops: metric     |
+|  some x on the grid {0, 1/grid_size, ..., 1}"                              | computed FROM THE ROWS = gridVal N i, i ≤ N                      |
+| "the fitted rule attains the maximum of the objective"                     | optimal_simple_ops / optimal_EO_ops (every member ≤ fit.objective)|
+|                                                                           | + fitted_rule_attains_simple / _EO (the fitted rules ARE a member |
+|                                                                           | — ruleOps, ruleOps_prob — with class objective = fit.objective);  |
+|                                                                           | point form: optimal_simple, optimal_EO                           |
+| "group-frequency-weighted mean of the per-group objective"                 | opsObjective / mixObjective with freq = len(group)/n; objective_ |
+|                                                                           | attained_simple, objective_is_weighted_curve                     |
+| "overall accuracy or balanced accuracy for equalized odds"                 | optimal_EO_ops: obj.eval of the OVERALL expected confusion counts |
+|                                                                           | (overallCMp); objective_attained_EO; obj ∈ LIFTED objectivesEO   |
+| "(all groups placed on the pointwise-lowest ROC hull)"                     | optimal_EO (y ≤ min of hulls), C04.parity_EO (yBest)             |
+| "never worse than the best constant classifier"                            | ge_constant (simple; BOTH constants), ge_constant_EO (both)      |
+| arg-max tie rule (idxmax = first maximum)                                  | fitted_index_first_maximum_simple / _EO                          |
+Supporting: hull_supporting, supportsAll_true, mixture_le_line, interpolate_is_envelope, eo_objective_monotone.
+Hypotheses everywhere: 1 ≤ N, IsConstraintMetric xm (lifted table), a successful fit (⇔ BothLabels, C04.fit_simple_none_iff).
+NOT MODELLED: np.around(.,15) before the EO arg-max, IEEE rounding (trusted; the harness compares objective VALUES).
 -/
 import FairModel.Lemmas.ThresholdOpt
 import FairModel.Lemmas.ThresholdComplete
+import FairModel.Lemmas.C05Review
 import FairModel.Properties.C04
 
 namespace C05
@@ -352,6 +377,226 @@ theorem objective_attained_EO (flip : Bool) (obj : Metric) (N : Nat) (groups : L
   have hg := hb groups[j] (List.getElem_mem hj)
   exact ⟨hg.1, hg.2, (hpar j hj hj').1, (hpar j hj hj').2.1⟩
 
+
+/-! ### The comparison class FROM FIRST PRINCIPLES (review addition)
+
+`optimal_simple` / `optimal_EO` above quantify over `Mixture`s of tradeoff POINTS.  The property text quantifies over "all
+rules that randomise, separately per group, over thresholdings of the scores (and flipped thresholdings when flip=True)".
+Such a rule is an `OpMix`: any finite list of `ThresholdOperation`s — ARBITRARY thresholds (finite, ±inf, equal to a score),
+operator "<" only when `flip` — with weights ≥ 0 summing to 1; its probability of predicting 1 is `OpMix.prob`, and its
+expected metrics are computed FROM THE ROWS (`m.eval (expCM prob rows)`), exactly like `expectedMetric` of the fitted rule. -/
+
+/-- every randomised threshold rule of a group has, on the group's rows, the expected metric pair of a valid mixture of
+    tradeoff points (sweep completeness + n-ary affinity of every METRIC_DICT entry) -/
+theorem randomised_rule_is_mixture (flip : Bool) (xm ym : Metric) (rows : List Row) (m : OpMix) (hv : m.Valid flip) :
+    ∃ M : Mixture, M.Valid (rawPoints flip xm ym rows) ∧
+      M.x = xm.eval (expCM m.prob rows) ∧ M.y = ym.eval (expCM m.prob rows) :=
+  opMix_to_mixture flip xm ym rows m hv
+
+/-- frequency-weighted expected objective of a family of per-group randomised threshold rules, from the rows -/
+def opsObjective (ym : Metric) (groups : List (List Row)) (ms : List OpMix) : Rat :=
+  (List.zipWith (fun g (m : OpMix) => freq groups g * ym.eval (expCM m.prob g)) groups ms).sum
+
+/-- **optimal_simple, full comparison class**: take ANY family of per-group randomised threshold rules (finite mixtures
+    of arbitrary `>`-thresholdings, and `<`-thresholdings when `flip`) whose expected constrained metric, computed on each
+    group's own rows, is the same grid value `i/N` in every group.  Its group-frequency-weighted expected objective is at
+    most the objective of the fitted rule (which by `objective_attained_simple` is the same functional of the fitted rules). -/
+theorem optimal_simple_ops (flip : Bool) (xm ym : Metric) (N : Nat) (groups : List (List Row)) (fit : Fit)
+    (hN : 1 ≤ N) (hx : IsConstraintMetric xm)
+    (hfit : fitSimple flip xm ym N groups none = some fit)
+    (i : Nat) (hi : i ≤ N) (ms : List OpMix) (hlen : ms.length = groups.length)
+    (hms : ∀ j (hj : j < groups.length) (hj' : j < ms.length),
+      ms[j].Valid flip ∧ xm.eval (expCM ms[j].prob groups[j]) = gridVal N i) :
+    opsObjective ym groups ms ≤ fit.objective := by
+  obtain ⟨hulls, cs, hh, hc, _, hmax, _⟩ := fitted_index_first_maximum_simple flip xm ym N groups fit hfit
+  have hclen := (curves_some hc).1
+  have hlenh := (hullsOf_some hh).1
+  have hi' : i < cs.length := by omega
+  obtain ⟨hrow, hent⟩ := curves_entry hx hh hN hc i hi'
+  refine le_trans ?_ (hmax i hi')
+  rw [objSimple_eq]
+  unfold opsObjective
+  apply zipWith_sum_le groups _ _ ms cs[i] hlen hrow
+  intro j hj hja hjb
+  obtain ⟨gc, hs⟩ := hent j hj hjb (by omega)
+  obtain ⟨hv, hmx⟩ := hms j hj hja
+  obtain ⟨M, hMv, hMx, hMy⟩ := opMix_to_mixture flip xm ym groups[j] ms[j] hv
+  have := interp_dominates gc hs M hMv (hMx.trans hmx)
+  rw [hMy] at this
+  exact mul_le_mul_of_nonneg_left this (freq_nonneg _ _)
+
+/-- **optimal_EO, full comparison class**: ANY family of per-group randomised threshold rules that gives every group the
+    same expected FPR `i/N` (a grid value) and the same expected TPR `y`, both computed on the group's own rows, has an
+    overall objective — the objective metric of the OVERALL expected confusion counts on the whole training set — at most
+    the fitted rule's, which by `objective_attained_EO` is the same functional of the fitted rules -/
+theorem optimal_EO_ops (flip : Bool) (obj : Metric) (hobj : obj ∈ objectivesEO) (N : Nat) (groups : List (List Row))
+    (fit : Fit) (yBest : Rat) (hN : 1 ≤ N)
+    (hfit : fitEO flip obj N groups none = some (fit, yBest))
+    (i : Nat) (hi : i ≤ N) (y : Rat) (ms : List OpMix) (hlen : ms.length = groups.length)
+    (hms : ∀ j (hj : j < groups.length) (hj' : j < ms.length),
+      ms[j].Valid flip ∧ eoXMetric.eval (expCM ms[j].prob groups[j]) = gridVal N i ∧
+      eoYMetric.eval (expCM ms[j].prob groups[j]) = y) :
+    obj.eval (overallCMp groups (ms.map OpMix.prob)) ≤ obj.eval (overallCM groups fit.rules) := by
+  obtain ⟨hb, _, _, _⟩ := C04.parity_EO flip obj N groups none fit yBest hN hfit
+  rw [← objective_attained_EO flip obj N groups none fit yBest hN hfit]
+  have hcm : overallCMp groups (ms.map OpMix.prob) = eoCounts (totalNeg groups) (totalPos groups) (gridVal N i) y := by
+    apply overallCMp_eq (gridVal N i) y groups _ (by simpa using hlen)
+    intro j hj hj'
+    have hg := hb groups[j] (List.getElem_mem hj)
+    have hja : j < ms.length := by omega
+    simp only [List.getElem_map]
+    exact ⟨hg.1, hg.2, (hms j hj hja).2.1, (hms j hj hja).2.2⟩
+  rw [hcm]
+  refine (optimal_EO flip obj hobj N groups fit yBest hN hfit i hi y ?_).2
+  intro j hj
+  have hja : j < ms.length := by omega
+  obtain ⟨hv, h1, h2⟩ := hms j hj hja
+  obtain ⟨M, hMv, hMx, hMy⟩ := opMix_to_mixture flip eoXMetric eoYMetric groups[j] ms[j] hv
+  exact ⟨M, hMv, hMx.trans h1, hMy.trans h2⟩
+
+/-- **ge_constant for equalized odds**: the fitted rule's overall objective is at least that of the all-negative and of the
+    all-positive constant classifier (overall objective of the whole training set predicted constantly 0 resp. 1) -/
+theorem ge_constant_EO (flip : Bool) (obj : Metric) (hobj : obj ∈ objectivesEO) (N : Nat) (groups : List (List Row))
+    (fit : Fit) (yBest : Rat) (hN : 1 ≤ N)
+    (hfit : fitEO flip obj N groups none = some (fit, yBest)) :
+    obj.eval (overallCMp groups (groups.map (fun _ => fun _ => (0 : Rat)))) ≤ fit.objective ∧
+    obj.eval (overallCMp groups (groups.map (fun _ => fun _ => (1 : Rat)))) ≤ fit.objective := by
+  obtain ⟨hb, _, _, _⟩ := C04.parity_EO flip obj N groups none fit yBest hN hfit
+  rw [objective_attained_EO flip obj N groups none fit yBest hN hfit]
+  have key : ∀ (o : Op) (c : Rat) (i : Nat), o.gt = true → i ≤ N → (∀ s, ind (o.apply s) = c) → gridVal N i = c →
+      obj.eval (overallCMp groups (groups.map (fun _ => fun _ => c))) ≤ obj.eval (overallCM groups fit.rules) := by
+    intro o c i hgt hi hoc hgi
+    have hprob : ∀ g : List Row, OpMix.prob [((1 : Rat), o)] = fun _ => c := by
+      intro g; funext s; simp [OpMix.prob, hoc s]
+    have := optimal_EO_ops flip obj hobj N groups fit yBest hN hfit i hi c (groups.map (fun _ => [((1 : Rat), o)]))
+      (by simp) (fun j hj hj' => by
+        have hg := hb groups[j] (List.getElem_mem hj)
+        simp only [List.getElem_map]
+        refine ⟨⟨fun wo hwo => ?_, by simp [OpMix.weight]⟩, ?_, ?_⟩
+        · simp only [List.mem_singleton] at hwo; subst hwo; exact ⟨zero_le_one, Or.inl hgt⟩
+        · rw [hprob groups[j], hgi]; exact (const_rates c groups[j] hg.1 hg.2).1
+        · rw [hprob groups[j]]; exact (const_rates c groups[j] hg.1 hg.2).2)
+    simpa [List.map_map, Function.comp_def, hprob []] using this
+  constructor
+  · exact key ⟨true, .pinf⟩ 0 0 rfl (by omega) (fun s => by simp [Op.apply, Thr.below, ind]) (gridVal_zero N)
+  · exact key ⟨true, .ninf⟩ 1 N rfl (le_refl _) (fun s => by simp [Op.apply, Thr.below, ind]) (gridVal_self hN)
+
+/-! ### "... the fitted rule ATTAINS the maximum": the fitted rule is itself a member of the comparison class -/
+
+/-- the fitted Bunch of one group written as a randomisation over thresholdings: the two interpolated operations, and for
+    equalized odds the constant `prediction_constant = c` drawn with probability `p_ignore`, i.e. "predict 1" (`> -inf`)
+    with weight `p_ignore * c` and "predict 0" (`> +inf`) with weight `p_ignore * (1 - c)` -/
+def ruleOps (r : Rule) : OpMix :=
+  match r.ign with
+  | none => [(r.p0, r.op0), (r.p1, r.op1)]
+  | some (pi, c) =>
+    [((1 - pi) * r.p0, r.op0), ((1 - pi) * r.p1, r.op1), (pi * c, ⟨true, .ninf⟩), (pi * (1 - c), ⟨true, .pinf⟩)]
+
+/-- ... and it predicts 1 with exactly the probability `_pmf_predict` reports -/
+theorem ruleOps_prob (r : Rule) : (ruleOps r).prob = ruleProb r := by
+  funext s
+  rw [src_ruleProb]
+  unfold ruleOps OpMix.prob
+  rcases hr : r.ign with _ | ⟨pi, c⟩
+  · simp only [List.map_cons, List.map_nil, List.sum_cons, List.sum_nil]; ring
+  · have h1 : ind ((⟨true, .ninf⟩ : Op).apply s) = 1 := by simp [Op.apply, Thr.below, ind]
+    have h0 : ind ((⟨true, .pinf⟩ : Op).apply s) = 0 := by simp [Op.apply, Thr.below, ind]
+    simp only [List.map_cons, List.map_nil, List.sum_cons, List.sum_nil, h1, h0]
+    ring
+
+/-- **attainment, simple constraints**: the fitted rules form a member of the comparison class of `optimal_simple_ops` —
+    valid randomisations over (flip-allowed) thresholdings, common constraint value `iBest / N` computed from the rows — and
+    the class objective of this member IS `fit.objective`.  With `optimal_simple_ops`: the fitted rule attains the maximum. -/
+theorem fitted_rule_attains_simple (flip : Bool) (xm ym : Metric) (N : Nat) (groups : List (List Row)) (force : Option Nat)
+    (fit : Fit) (hN : 1 ≤ N) (hx : IsConstraintMetric xm)
+    (hfit : fitSimple flip xm ym N groups force = some fit) :
+    (fit.rules.map ruleOps).length = groups.length ∧ fit.iBest ≤ N ∧
+    (∀ j (hj : j < groups.length) (hj' : j < fit.rules.length),
+      (ruleOps fit.rules[j]).Valid flip ∧
+      xm.eval (expCM (ruleOps fit.rules[j]).prob groups[j]) = gridVal N fit.iBest) ∧
+    opsObjective ym groups (fit.rules.map ruleOps) = fit.objective := by
+  obtain ⟨_, hiN, hrl, hpar⟩ := C04.parity_simple flip xm ym N groups force fit hN hx hfit
+  obtain ⟨hulls, cs, best, hh, hc, hb, _, hrules, _, _⟩ := fitSimple_some hfit
+  obtain ⟨hi, hbest⟩ := List.getElem?_eq_some_iff.mp hb
+  obtain ⟨hrow, hent⟩ := curves_entry hx hh hN hc fit.iBest hi
+  have hlenh := (hullsOf_some hh).1
+  rw [hbest] at hrow hent
+  refine ⟨by simpa using hrl, hiN, fun j hj hj' => ?_, ?_⟩
+  · have hjb : j < best.length := by omega
+    obtain ⟨gc, hs⟩ := hent j hj hjb (by omega)
+    have hr : fit.rules[j] = simpleRule best[j] := by simp [hrules]
+    refine ⟨?_, by rw [ruleOps_prob]; exact (hpar j hj hj').1⟩
+    rw [hr]
+    refine ⟨fun wo hwo => ?_, by simp [ruleOps, simpleRule, OpMix.weight, hs.sum_one]⟩
+    have hops : flip = false → best[j].op0.gt = true ∧ best[j].op1.gt = true := by
+      intro hf; subst hf; exact ThresholdPredict.interp_ops_gt gc hs
+    simp only [ruleOps, simpleRule, List.mem_cons, List.not_mem_nil, or_false] at hwo
+    cases hflip : flip with
+    | true => rcases hwo with rfl | rfl
+              · exact ⟨hs.p0_nonneg, Or.inr rfl⟩
+              · exact ⟨hs.p1_nonneg, Or.inr rfl⟩
+    | false => rcases hwo with rfl | rfl
+               · exact ⟨hs.p0_nonneg, Or.inl (hops hflip).1⟩
+               · exact ⟨hs.p1_nonneg, Or.inl (hops hflip).2⟩
+  · rw [objective_attained_simple flip xm ym N groups force fit hN hx hfit]
+    unfold opsObjective
+    apply zipWith_sum_eq groups _ _ (fit.rules.map ruleOps) fit.rules (by simpa using hrl) hrl
+    intro j hj hja hjb
+    simp only [List.getElem_map, ruleOps_prob]
+    rfl
+
+/-- **attainment, equalized odds**: every fitted Bunch (interpolation + `p_ignore` towards the constant `x_best`) is a valid
+    randomisation over thresholdings with expected FPR `x_best` and TPR `y_best` from the rows, and the overall objective of
+    this family is `fit.objective` -/
+theorem fitted_rule_attains_EO (flip : Bool) (obj : Metric) (N : Nat) (groups : List (List Row)) (force : Option Nat)
+    (fit : Fit) (yBest : Rat) (hN : 1 ≤ N)
+    (hfit : fitEO flip obj N groups force = some (fit, yBest)) :
+    (∀ j (hj : j < groups.length) (hj' : j < fit.rules.length),
+      (ruleOps fit.rules[j]).Valid flip ∧
+      eoXMetric.eval (expCM (ruleOps fit.rules[j]).prob groups[j]) = gridVal N fit.iBest ∧
+      eoYMetric.eval (expCM (ruleOps fit.rules[j]).prob groups[j]) = yBest) ∧
+    obj.eval (overallCMp groups ((fit.rules.map ruleOps).map OpMix.prob)) = fit.objective := by
+  obtain ⟨_, hiN, hrl, hpar⟩ := C04.parity_EO flip obj N groups force fit yBest hN hfit
+  obtain ⟨hulls, cs, ymins, best, hh, hc, _, hb, _, _, hrules, _, _⟩ := fitEO_some hfit
+  have hx := C04.eo_metric_is_constraint
+  obtain ⟨hi, hbest⟩ := List.getElem?_eq_some_iff.mp hb
+  obtain ⟨hrow, hent⟩ := curves_entry hx hh hN hc fit.iBest hi
+  have hlenh := (hullsOf_some hh).1
+  rw [hbest] at hrow hent
+  refine ⟨fun j hj hj' => ?_, ?_⟩
+  · have hjb : j < best.length := by omega
+    obtain ⟨gc, hs⟩ := hent j hj hjb (by omega)
+    obtain ⟨ex, ey, pi, c, hign, hp0, hp1, hcv⟩ := hpar j hj hj'
+    have hr : fit.rules[j] = eoRule (gridVal N fit.iBest) yBest best[j] := by simp [hrules]
+    refine ⟨?_, by rw [ruleOps_prob]; exact ex, by rw [ruleOps_prob]; exact ey⟩
+    have hc0 : 0 ≤ c := by rw [hcv]; exact gridVal_nonneg N fit.iBest
+    have hc1 : c ≤ 1 := by rw [hcv]; exact gridVal_le_one hN hiN
+    have hops : flip = false → best[j].op0.gt = true ∧ best[j].op1.gt = true := by
+      intro hf; subst hf; exact ThresholdPredict.interp_ops_gt gc hs
+    have hro : fit.rules[j].op0 = best[j].op0 ∧ fit.rules[j].op1 = best[j].op1 ∧ fit.rules[j].p0 = best[j].p0 ∧
+        fit.rules[j].p1 = best[j].p1 := by rw [hr]; exact ⟨rfl, rfl, rfl, rfl⟩
+    have hgt : ∀ o : Op, o = fit.rules[j].op0 ∨ o = fit.rules[j].op1 → (o.gt = true ∨ flip = true) := by
+      intro o ho
+      cases hflip : flip with
+      | true => exact Or.inr rfl
+      | false =>
+        rcases ho with rfl | rfl
+        · exact Or.inl (by rw [hro.1]; exact (hops hflip).1)
+        · exact Or.inl (by rw [hro.2.1]; exact (hops hflip).2)
+    refine ⟨fun wo hwo => ?_, ?_⟩
+    · simp only [ruleOps, hign, List.mem_cons, List.not_mem_nil, or_false] at hwo
+      rcases hwo with rfl | rfl | rfl | rfl
+      · exact ⟨mul_nonneg (by linarith) (by rw [hro.2.2.1]; exact hs.p0_nonneg), hgt _ (Or.inl rfl)⟩
+      · exact ⟨mul_nonneg (by linarith) (by rw [hro.2.2.2]; exact hs.p1_nonneg), hgt _ (Or.inr rfl)⟩
+      · exact ⟨mul_nonneg hp0 hc0, Or.inl rfl⟩
+      · exact ⟨mul_nonneg hp0 (by linarith), Or.inl rfl⟩
+    · simp only [ruleOps, hign, OpMix.weight, List.map_cons, List.map_nil, List.sum_cons, List.sum_nil]
+      have hsum : fit.rules[j].p0 + fit.rules[j].p1 = 1 := by rw [hro.2.2.1, hro.2.2.2]; exact hs.sum_one
+      have : fit.rules[j].p1 = 1 - fit.rules[j].p0 := by linarith
+      rw [this]; ring
+  · rw [objective_attained_EO flip obj N groups force fit yBest hN hfit, overallCM_eq_overallCMp]
+    simp only [List.map_map, Function.comp_def, ruleOps_prob]
+
 /-! ### Non-vacuity -/
 
 def gA : List Row := [⟨1, true⟩, ⟨1, true⟩, ⟨1/2, false⟩, ⟨1/2, true⟩, ⟨0, false⟩]
@@ -382,5 +627,34 @@ example : (fitSimple false .selection_rate .balanced_accuracy_score 4 tie none).
     some (0, 1/2) ∧
     (fitSimple false .selection_rate .balanced_accuracy_score 4 tie (some 3)).map (fun f => (f.iBest, f.objective)) =
     some (3, 1/2) := by decide +kernel
+
+-- review additions: hypotheses of `optimal_simple_ops` / `optimal_EO_ops` met SIMULTANEOUSLY by a randomised, non-constant
+-- competitor on the 3-group example with ties: toss a fair coin between "all negative" and "all positive" ...
+def mHalf : OpMix := [(1/2, ⟨true, .pinf⟩), (1/2, ⟨true, .ninf⟩)]
+-- ... or, with flip, mix a threshold ON a training score (1/2) with a flipped thresholding
+def mFlip : OpMix := [(1/4, ⟨true, .fin (1/2)⟩), (3/4, ⟨false, .fin (3/4)⟩)]
+example : mHalf.Valid false ∧ mFlip.Valid true ∧ ¬ mFlip.Valid false := by
+  refine ⟨⟨by decide +kernel, by decide +kernel⟩, ⟨by decide +kernel, by decide +kernel⟩, fun h => ?_⟩
+  have := (h.1 (3/4, ⟨false, .fin (3/4)⟩) (by simp [mFlip])).2
+  simp at this
+example : (fitSimple false .selection_rate .accuracy_score 2 ex none).map (fun f => (f.iBest, f.objective)) =
+    some (1, 13/17) := by decide +kernel
+example : ∀ g ∈ ex, Metric.eval .selection_rate (expCM mHalf.prob g) = gridVal 2 1 := by decide +kernel
+example : opsObjective .accuracy_score ex [mHalf, mHalf, mHalf] = 1/2 := by decide +kernel
+-- equalized odds: the same family has FPR = TPR = 1/2 = grid[2] of 4 in every group; its overall accuracy 1/2 < 43/68
+example : ∀ g ∈ ex, Metric.eval eoXMetric (expCM mHalf.prob g) = gridVal 4 2 ∧
+    Metric.eval eoYMetric (expCM mHalf.prob g) = 1/2 := by decide +kernel
+example : Metric.eval .accuracy_score (overallCMp ex ([mHalf, mHalf, mHalf].map OpMix.prob)) = 1/2 := by decide +kernel
+-- a rule of the class that is NOT a tradeoff point itself (threshold on a score, flipped part): its metric pair from the rows
+example : (Metric.eval .false_positive_rate (expCM mFlip.prob gB), Metric.eval .true_positive_rate (expCM mFlip.prob gB)) =
+    (5/8, 1/2) := by decide +kernel
+
+-- attainment: the fitted family, written as randomisations over thresholdings, has class objective = fit.objective
+example : (fitSimple false .selection_rate .accuracy_score 2 ex none).map
+    (fun f => opsObjective .accuracy_score ex (f.rules.map ruleOps)) = some (13/17) := by decide +kernel
+example : (fitEO false .accuracy_score 4 ex none).map (fun f =>
+      (f.1.rules.map (fun r => (ruleOps r).weight),
+       Metric.eval .accuracy_score (overallCMp ex ((f.1.rules.map ruleOps).map OpMix.prob)))) =
+    some ([1, 1, 1], 43/68) := by decide +kernel
 
 end C05
